@@ -102,7 +102,20 @@ pub fn instantiate(bn: &BooleanNetwork, colour: u64) -> Result<BooleanNetwork, S
             }
         }
     }
-    let mut out = BooleanNetwork::new(bn.as_graph().clone());
+    // same variables and regulators, but no observability / monotonicity annotations: the
+    // instantiated network is defined by its update functions (an instantiation by a valid colour
+    // of a network with zero-arity parameters need not satisfy the annotations on its own)
+    let names: Vec<String> = bn.variables().map(|v| bn.get_variable_name(v).clone()).collect();
+    let mut rg = biodivine_lib_param_bn::RegulatoryGraph::new(names.clone());
+    for r in bn.as_graph().regulations() {
+        rg.add_regulation(
+            &names[r.get_regulator().to_index()],
+            &names[r.get_target().to_index()],
+            false,
+            None,
+        )?;
+    }
+    let mut out = BooleanNetwork::new(rg);
     for v in bn.variables() {
         let f = match bn.get_update_function(v) {
             Some(f) => subst(f, colour, &p_off),
